@@ -83,6 +83,29 @@ def check_graph(obj, s):
                 break
         if len(problems) > 30:
             break
+    # ---- pin geometry: two different pins of one instance symbol must not be drawn on the same point, otherwise a net that
+    # touches one of them also touches the pin of another wire
+    st['pin_positions_judged'] = 0
+    for c in children:
+        sym = sym_of.get(id(c))
+        if sym is None:
+            continue
+        for ports, fn, side in ((c.inPorts, 'getPortSinkPos', 'in'), (c.outPorts, 'getPortSourcePos', 'out')):
+            pos = {}
+            for prt in ports:
+                if prt.wire is None:
+                    continue
+                try:
+                    xy = tuple(getattr(sym, fn)(prt))
+                except Exception:
+                    st['pin_position_errors'] = st.get('pin_position_errors', 0) + 1
+                    continue
+                st['pin_positions_judged'] += 1
+                if xy in pos and pos[xy].wire is not prt.wire:
+                    problems.append(('pins_coincide', 'instance %s (%s): pins %s and %s are drawn on the same point %r' % (
+                        c.name, type(sym).__name__, pos[xy].name, prt.name, xy), dict(side=side, symbol=type(sym).__name__)))
+                    break
+                pos.setdefault(xy, prt)
     # ---- wires
     pins = {}       # id(wire) -> dict(wire, drv=[(sym, port)], rd=[(sym, port)])
     def rec(w):
